@@ -209,8 +209,12 @@ public:
 
 		// can't std::forward<Args>(args) in GetEvent::getEvent because the pass by value arguments will be moved to getEvent
 		// then the other std::forward<Args>(args) to directDispatch will get empty values.
+		// The event must be obtained in its own statement: the evaluation order of function
+		// arguments is unspecified, so within one call expression std::forward<Args>(args)
+		// may move the arguments away before getEvent reads them.
+		const Event e = GetEvent::getEvent(args...);
 		directDispatch(
-			GetEvent::getEvent(args...),
+			e,
 			std::forward<Args>(args)...
 		);
 	}
@@ -222,8 +226,10 @@ public:
 
 		using GetEvent = typename SelectGetEvent<Policies_, EventType_, HasFunctionGetEvent<Policies_, T &&, Args...>::value>::Type;
 
+		// See the comment in the other dispatch overload.
+		const Event e = GetEvent::getEvent(std::forward<T>(first), args...);
 		directDispatch(
-			GetEvent::getEvent(std::forward<T>(first), args...),
+			e,
 			std::forward<Args>(args)...
 		);
 	}
